@@ -180,6 +180,60 @@ fn part_host_receiver(run: &mut Run) {
     }
 }
 
+/// a receiver whose evaluation fails: the call fails with it, whatever arguments follow (it never
+/// turns into a function-style call on the remaining arguments)
+fn part_failing_receiver(run: &mut Run) {
+    use cel_interpreter::extractors::{Arguments, This};
+    use cel_interpreter::ExecutionError;
+    use std::sync::atomic::{AtomicUsize, Ordering};
+    use std::sync::Arc;
+    let calls = Arc::new(AtomicUsize::new(0));
+    let mut ctx = Context::default();
+    let c1 = calls.clone();
+    ctx.add_function("hf", move |This(t): This<Value>| -> Result<Value, ExecutionError> {
+        c1.fetch_add(1, Ordering::SeqCst);
+        Ok(t)
+    });
+    let c2 = calls.clone();
+    ctx.add_function("hv", move |Arguments(a): Arguments| -> Result<Value, ExecutionError> {
+        c2.fetch_add(1, Ordering::SeqCst);
+        Ok(Value::Int(a.len() as i64))
+    });
+    let c3 = calls.clone();
+    ctx.add_function("hs", move |This(t): This<Arc<String>>, a: Arc<String>| -> Result<Value, ExecutionError> {
+        c3.fetch_add(1, Ordering::SeqCst);
+        Ok(Value::String(Arc::new(format!("{}{}", t, a))))
+    });
+    run.sub("failing-receiver");
+    let receivers = ["missing", "(1 / 0)", "missing.f", "{'a': 1}.b", "(9223372036854775807 + 1)", "nofn(1)"];
+    let calls_src = [
+        "R.hf()", "R.hf(1)", "R.hf('x', 2)", "R.hv()", "R.hv(1, 2)", "R.hs('x')", "R.hs('x', 'y')", "R.size()", "R.size([1, 2])", "R.contains('a')", "R.contains('abc', 'a')", "R.startsWith('a', 'a')",
+        "R.string()", "R.string(1)", "R.int('5')", "R.max(1, 2)", "R.matches('a', 'a')", "R.getFullYear(timestamp('2020-01-01T00:00:00Z'))", "R.duration('1s')", "R.bytes('a')", "R.double(1)",
+    ];
+    for r in receivers.iter() {
+        for c in calls_src.iter() {
+            if !run.take() {
+                continue;
+            }
+            let src = c.replace('R', r);
+            calls.store(0, Ordering::SeqCst);
+            let got = subj::run_src(&src, &ctx);
+            run.trans(2);
+            run.validated();
+            run.nontrivial();
+            let n = calls.load(Ordering::SeqCst);
+            run.class(&format!("failing-receiver:{}:{}", c, got.tag()), || json!({"src": src, "got": got.show()}));
+            if !matches!(got, Out::Err(_)) || n != 0 {
+                run.fail(
+                    &format!("C20|failing-receiver|{}|got={}", c, got.tag()),
+                    format!("`{}`: the receiver fails to evaluate, but the call gave {} ({} host invocation(s))", src, got.show(), n),
+                    json!({"src": src}),
+                );
+            }
+        }
+    }
+}
+
 /// an argument as written in the call: (source, value it evaluates to, kind index or usize::MAX for a wrong kind, is it an identifier)
 #[derive(Clone, Debug)]
 struct Arg {
@@ -432,5 +486,6 @@ pub fn part_hosts_for(run: &mut Run, prop: &str, panics_only: bool) {
 pub fn run(run: &mut Run) {
     part_builtins(run);
     part_host_receiver(run);
+    part_failing_receiver(run);
     part_hosts_for(run, "C20", false);
 }
